@@ -2,6 +2,8 @@
 //
 // ops (first int = op code):  0 LockRead | 1 LockWrite | 2 Begin it | 3 Next it | 4 Deref it | 5 IsEnd it
 //   | 6 PushFront v | 7 PushBack v | 8 EmplaceFront v | 9 EmplaceBack v | 10 Erase it | 11 Release
+//   | 12 BeginFail it | 13 PushFail v | 14 EraseFail it  (the first allocation inside the call throws std::bad_alloc,
+//     logged K_THROW 2 at the allocate call; the driver logs K_CATCH 0)
 // One handle per thread at a time, any number of iterator slots; Next / Deref / Erase on an
 // iterator equal to end() do nothing; a nonsensical op is skipped with K_FAULT 9 (as in the model).
 // A push / emplace of a NEGATIVE value makes the element constructor throw inside construct() (K_CALL 1,
@@ -45,7 +47,13 @@ struct RcuComp {
         Th& me = th[tid];
         const List::end_iterator end{};
         long a = o.size() > 1 ? o[1] : 0;
-        switch (o[0]) {
+        long code = o[0];
+        // 12 BeginFail it | 13 PushFail v | 14 EraseFail it: the same calls with the first allocation failing
+        vs::rcu::FailNext arm(code >= 12 && code <= 14);
+        if (code == 12) code = 2;
+        if (code == 13) code = 7;
+        if (code == 14) code = 10;
+        switch (code) {
             case 0:
                 if (me.rh || me.wh) return misuse();
                 me.rh.emplace(g->lock_read());
